@@ -328,4 +328,29 @@ theorem world_unrelated_data_has_no_influence (j : Nat) (w w' : World) (ins : Li
 /-- determinism of the composed core is definitional: a run is a FUNCTION of the start world and the inputs -/
 theorem world_run_deterministic (w : World) (ins ins' : List WIn) (h : ins = ins') : w.run ins = w.run ins' := by rw [h]
 
+/-! ### source-code strategies: nothing an earlier strategy defined reaches a later one -/
+
+/-- with a copied base scope the shared namespace never changes ... -/
+theorem scopeRun_keeps_shared (shared defs : List String) : (scopeRun true shared defs).2 = shared := by
+  simp [scopeRun]
+
+/-- ... so the scope of a run is the API namespace plus ITS OWN definitions, whatever sources ran before it in the process -/
+theorem scope_independent_of_history (shared : List String) (hist : List (List String)) (defs : List String) :
+    scopeAfter true shared hist defs = shared ++ defs := by
+  induction hist generalizing shared with
+  | nil => simp [scopeAfter, scopeRun]
+  | cons h rest ih => simp only [scopeAfter, scopeRun_keeps_shared]; exact ih shared
+
+/-- the hooks a run finds are exactly the API names and its own: a hook only an EARLIER strategy defined is not found -/
+theorem foreign_hook_not_inherited (shared : List String) (hist : List (List String)) (defs : List String) (hook : String)
+    (h1 : hook ∉ shared) (h2 : hook ∉ defs) : hook ∉ scopeAfter true shared hist defs := by
+  rw [scope_independent_of_history]
+  simp [h1, h2]
+
+/-- the current source satisfies the discipline (regenerated flag) -/
+theorem source_copies_base_scope : srcScopeCopied = true := by decide
+
+/-- why the discipline matters: without the copy the second strategy finds the first one's `open_auction` -/
+example : "open_auction" ∈ scopeAfter false ["order_shares"] [["init", "open_auction"]] ["init", "handle_bar"] := by decide
+
 end RQ.Props.C13
